@@ -6,8 +6,13 @@
 // argument, a parked consumer coroutine being resumed, RAII guards of the body being destroyed, the helper thread
 // completing an awaited operation) are appended as ` ; ev1 ev2 ...` in order of occurrence.
 //
-//   case <id> <v|a|rv|ra> <helper-delay 0..2>  v: generator<int>  a: generator<int,int>  rv: generator<int&>  ra: generator<int&,int>
-//   script <act>...      y<v> co_yield v | n co_yield nullptr | r co_await <ready cocls::future> |
+//   case <id> <v|a|rv|ra|sv|sa> <helper-delay 0..2>  v: generator<int>  a: generator<int,int>  rv: generator<int&>  ra: generator<int&,int>
+//                        sv: generator<mval>  sa: generator<mval,int>   (mval: a string-like value type whose move EMPTIES the source;
+//                        an emptied object prints as `moved`)
+//   script <act>...      y<v> co_yield v (odd statements: a fresh local, an lvalue; even statements: a temporary) |
+//                        a<c> acc.append(c); co_yield acc;  the body extends ONE variable of its own and yields that variable (an
+//                        lvalue it keeps using); when it is resumed it reports what the variable holds then: event acc=<content> |
+//                        n co_yield nullptr | r co_await <ready cocls::future> |
 //                        p<k> co_await <harness event k> | f<k> co_await <cocls::future k> | g construct a RAII guard local |
 //                        q co_await cocls::pause() (needs the coroutine queue of the body's thread: every access of the library
 //                        provides one; the harness event k resumes the body as a foreign awaitable would - by a bare resume() -
@@ -36,6 +41,10 @@
 //   for                  for (int &v : gen) ...                    -> for v:1 v:2 end | ... exc | nomore
 //   complete <k> | tcomplete <k>             awaited operation k finishes, on the consumer thread | on a second thread (joined)
 //   destroy              destroy the generator object              -> destroy
+//   co <op> ...          the same operation issued from INSIDE A RUNNING COROUTINE (a consumer coroutine that was resumed through
+//                        the coroutine queue of its thread: coroutine mode, coro_queue::is_active()) -> co <the line of the operation>
+//                        (fwait / fbool / fnot on a pending future would trip the library's "Blocking wait in a coroutine" assert:
+//                        not made, `would-block`)
 //   end                  completes whatever is still awaited, destroys everything
 //                                     -> end made=<guards> once=<destroyed exactly once> multi=<more than once> fut=<content of the last future>
 //
@@ -69,6 +78,29 @@ void ev(std::string s) {
     std::lock_guard<std::mutex> lk(ev_mx);
     evs.push_back(std::move(s));
 }
+
+// ---------------------------------------------------------------- a value type that notices being moved from
+// (like std::string / std::vector / unique_ptr: the move constructor and move assignment leave the source EMPTY; the content is
+// a heap string of decimal digits so that ASan sees stale accesses)
+struct mval {
+    std::string s;
+    mval() = default;
+    explicit mval(int v) : s(std::to_string(v)) {}
+    mval(const mval &) = default;
+    mval &operator=(const mval &) = default;
+    mval(mval &&o) noexcept : s(std::move(o.s)) { o.s.clear(); }
+    mval &operator=(mval &&o) noexcept {
+        if (this != &o) {
+            s = std::move(o.s);
+            o.s.clear();
+        }
+        return *this;
+    }
+};
+inline std::string vstr(int v) { return std::to_string(v); }
+inline std::string vstr(const mval &m) { return m.s.empty() ? std::string("moved") : m.s; }
+inline void vappend(int &acc, int c) { acc = acc * 10 + c; }
+inline void vappend(mval &acc, int c) { acc.s += std::to_string(c); }
 
 // ---------------------------------------------------------------- watchdog: an operation that never finishes is a failure
 // (exit code 96).  With `--hangfile <path>` every hang leaves a mark in that file, and once HANG_BUDGET marks exist the
@@ -299,20 +331,26 @@ struct EventAwaiter {
 
 // value-typed and reference-typed generators run the same bodies (generator<int &> hands out references to the yielded
 // local / temporary of the frame instead of letting the future copy it)
-#define VH_DEFINE_BODY_V(NAME, GEN)                                                                         \
+#define VH_DEFINE_BODY_V(NAME, GEN, VT)                                                                     \
     GEN NAME(const std::vector<Act> *script, Awaited *aw) {                                                 \
         std::vector<std::unique_ptr<Guard>> guards; /* locals with destructors */                           \
+        VT acc{};                                   /* the variable the body keeps extending and yielding */ \
         int idx = 0;                                                                                        \
         for (const Act &a : *script) {                                                                      \
             ++idx;                                                                                          \
             switch (a.kind) {                                                                               \
                 case 'y':                                                                                   \
                     if (idx & 1) {                                                                          \
-                        int lv = a.v;                                                                       \
+                        VT lv(a.v);                                                                         \
                         co_yield lv; /* yield_value(Ret &) */                                               \
                     } else {                                                                                \
-                        co_yield int(a.v); /* yield_value(Ret &&): the value lives in a temporary of the frame */ \
+                        co_yield VT(a.v); /* yield_value(Ret &&): the value lives in a temporary of the frame */ \
                     }                                                                                       \
+                    break;                                                                                  \
+                case 'a':                                                                                   \
+                    vappend(acc, a.v);                                                                      \
+                    co_yield acc; /* yield_value(Ret &) on a variable the body goes on using */             \
+                    ev("acc=" + vstr(acc));                                                                 \
                     break;                                                                                  \
                 case 'n':                                                                                   \
                     co_yield nullptr;                                                                       \
@@ -322,9 +360,10 @@ struct EventAwaiter {
         }                                                                                                   \
     }
 
-#define VH_DEFINE_BODY_A(NAME, GEN)                                                                         \
+#define VH_DEFINE_BODY_A(NAME, GEN, VT)                                                                     \
     GEN NAME(const std::vector<Act> *script, Awaited *aw) {                                                 \
         std::vector<std::unique_ptr<Guard>> guards;                                                         \
+        VT acc{};                                                                                           \
         int idx = 0;                                                                                        \
         for (const Act &a : *script) {                                                                      \
             ++idx;                                                                                          \
@@ -332,12 +371,19 @@ struct EventAwaiter {
                 case 'y': {                                                                                 \
                     int got;                                                                                \
                     if (idx & 1) {                                                                          \
-                        int lv = a.v;                                                                       \
+                        VT lv(a.v);                                                                         \
                         got = co_yield lv;                                                                  \
                     } else {                                                                                \
-                        got = co_yield int(a.v);                                                            \
+                        got = co_yield VT(a.v);                                                             \
                     }                                                                                       \
                     ev("got=" + std::to_string(got));                                                       \
+                    break;                                                                                  \
+                }                                                                                           \
+                case 'a': {                                                                                 \
+                    vappend(acc, a.v);                                                                      \
+                    int got = co_yield acc;                                                                 \
+                    ev("got=" + std::to_string(got));                                                       \
+                    ev("acc=" + vstr(acc));                                                                 \
                     break;                                                                                  \
                 }                                                                                           \
                 case 'n': {                                                                                 \
@@ -354,16 +400,22 @@ using gen_v = generator<int>;
 using gen_a = generator<int, int>;
 using gen_rv = generator<int &>;
 using gen_ra = generator<int &, int>;
-VH_DEFINE_BODY_V(body_v, gen_v)
-VH_DEFINE_BODY_V(body_rv, gen_rv)
-VH_DEFINE_BODY_A(body_a, gen_a)
-VH_DEFINE_BODY_A(body_ra, gen_ra)
+using gen_sv = generator<mval>;
+using gen_sa = generator<mval, int>;
+VH_DEFINE_BODY_V(body_v, gen_v, int)
+VH_DEFINE_BODY_V(body_rv, gen_rv, int)
+VH_DEFINE_BODY_V(body_sv, gen_sv, mval)
+VH_DEFINE_BODY_A(body_a, gen_a, int)
+VH_DEFINE_BODY_A(body_ra, gen_ra, int)
+VH_DEFINE_BODY_A(body_sa, gen_sa, mval)
 
 template <typename G>
 G body(const std::vector<Act> *script, Awaited *aw) {
     if constexpr (std::is_same_v<G, gen_v>) return body_v(script, aw);
     else if constexpr (std::is_same_v<G, gen_rv>) return body_rv(script, aw);
     else if constexpr (std::is_same_v<G, gen_a>) return body_a(script, aw);
+    else if constexpr (std::is_same_v<G, gen_sv>) return body_sv(script, aw);
+    else if constexpr (std::is_same_v<G, gen_sa>) return body_sa(script, aw);
     else return body_ra(script, aw);
 }
 
@@ -382,7 +434,7 @@ template <typename F>
 std::string item_of(F &f) {   // non-blocking classification of a future
     if (!f.ready()) return "pending";
     try {
-        return "v:" + std::to_string(f.value());
+        return "v:" + vstr(f.value());
     } catch (const await_canceled_exception &) {
         return "novalue";
     } catch (const test_exc &) {
@@ -401,7 +453,7 @@ struct Case {
     static constexpr bool has_arg = !G::arg_is_void;
     // iterators need a generator without argument; for generator<T &> `generator::iterator` names generator_iterator<generator<T>>
     // (generator.h:68 strips the reference), so begin()/end()/range-for do not compile for it: reported as n/a
-    static constexpr bool has_iter = !has_arg && std::is_same_v<G, generator<int>>;
+    static constexpr bool has_iter = !has_arg && (std::is_same_v<G, generator<int>> || std::is_same_v<G, generator<mval>>);
     using iter_t = std::conditional_t<has_iter, typename G::iterator, int>;
     std::vector<Act> script;
     Awaited aw;
@@ -431,7 +483,7 @@ struct Case {
         Case *c = nullptr;
         int remaining = 0;
         int arg = 0;
-        Cb() { set_resume_fn(&Cb::fn, nullptr); }
+        Cb() { VN_awaiter_set_resume_fn(&Cb::fn, nullptr); }
         static suspend_point<void> fn(awaiter *me, void *) noexcept {
             auto self = static_cast<Cb *>(me);
             self->c->on_notify(*self);
@@ -510,8 +562,8 @@ struct Case {
     ctask c_fawait(fut_t *f) {
         std::string r;
         try {
-            int &v = co_await *f;
-            r = "v:" + std::to_string(v);
+            auto &v = co_await *f;
+            r = "v:" + vstr(v);
         } catch (const await_canceled_exception &) {
             r = "novalue";
         } catch (const test_exc &) {
@@ -530,9 +582,21 @@ struct Case {
         ev(b ? "fhas=true" : "fhas=false");
     }
 
+    // `co <op>`: the operation is made by a consumer coroutine running in coroutine mode (it went through the coroutine queue of
+    // its thread at least once: co_await pause() re-enqueues and resumes it)
+    template <typename Fn>
+    ctask c_inside(Fn *fn) {
+        co_await cocls::pause();
+        (*fn)();
+    }
+    template <typename Fn>
+    void in_coroutine(Fn &&fn) {
+        coro_queue::install_queue_and_call([&] { c_inside(&fn); });
+    }
+
     std::string value_str() {
         try {
-            return "v:" + std::to_string(gen->value());
+            return "v:" + vstr(gen->value());
         } catch (const test_exc &) {
             return "exc";
         } catch (const value_not_ready_exception &) {
@@ -575,6 +639,12 @@ struct Case {
             auto w = vh::split(line);
             if (w.empty()) continue;
             std::ostringstream head;
+            bool co = false;
+            if (w[0] == "co" && w.size() > 1 && (gen || gone)) {
+                co = true;
+                w.erase(w.begin());
+                head << "co ";
+            }
             const std::string &op = w[0];
             // no generator yet (an input without its `script` line, e.g. while a failing case is being shrunk): nothing to operate on,
             // no output line (the model driver ignores such lines as well)
@@ -624,6 +694,13 @@ struct Case {
                 vh::emit(head.str(), evs);
                 for (int k = 0; k < NK; ++k) aw.complete(k);   // nothing may be left awaiting them
                 return;
+            } else if (co && (op == "fwait" || op == "fbool" || op == "fnot") && fut && !fut->ready()) {
+                head << " would-block";
+                vh::emit(head.str(), evs);
+                continue;
+            }
+            auto do_op = [&] {
+            if (op == "script") {
             } else if (op == "complete" || op == "tcomplete") {
                 int k = w.size() > 1 ? atoi(w[1].c_str()) : 0;
                 if (k < 0 || k >= NK) k = 0;
@@ -652,8 +729,8 @@ struct Case {
                     std::optional<Blocking> blk;
                     if (!fut->ready()) blk.emplace();
                     try {
-                        int &v = fut->wait();
-                        head << " v:" << v;
+                        auto &v = fut->wait();
+                        head << " v:" << vstr(v);
                     } catch (const await_canceled_exception &) {
                         head << " novalue";
                     } catch (const test_exc &) {
@@ -707,8 +784,8 @@ struct Case {
                 else if (inflight()) head << " busy";
                 else if constexpr (has_iter) {
                     try {
-                        int *pv = it->operator->();
-                        head << " v:" << *pv;
+                        auto *pv = it->operator->();
+                        head << " v:" << vstr(*pv);
                     } catch (const test_exc &) {
                         head << " exc";
                     } catch (const value_not_ready_exception &) {
@@ -720,8 +797,8 @@ struct Case {
                 else if (inflight()) head << " busy";
                 else if constexpr (has_iter) {
                     try {
-                        int &v = **it;
-                        head << " v:" << v;
+                        auto &v = **it;
+                        head << " v:" << vstr(v);
                     } catch (const test_exc &) {
                         head << " exc";
                     } catch (const value_not_ready_exception &) {
@@ -766,8 +843,8 @@ struct Case {
                             stop = !gen->next();
                         }
                         if (stop) break;
-                        int &v = gen->value();
-                        head << " v:" << v;
+                        auto &v = gen->value();
+                        head << " v:" << vstr(v);
                     }
                     head << " end";
                 } catch (const test_exc &) {
@@ -821,7 +898,7 @@ struct Case {
                     Blocking blk;
                     it.reset();
                     try {
-                        for (int &v : *gen) head << " v:" << v;
+                        for (auto &v : *gen) head << " v:" << vstr(v);
                         head << " end";
                     } catch (const test_exc &) {
                         head << " exc";
@@ -846,7 +923,7 @@ struct Case {
                         auto st = (*it)++;
                         // (storage::operator* / operator-> of iterator.h do not compile when instantiated: they return
                         //  non-const references to a member from const functions; the stored value is read directly)
-                        head << " v:" << st._v << " " << (*it != gen->end() ? "true" : "false");
+                        head << " v:" << vstr(st._v) << " " << (*it != gen->end() ? "true" : "false");
                     } catch (const test_exc &) {
                         head << " exc";
                     } catch (const value_not_ready_exception &) {
@@ -858,6 +935,9 @@ struct Case {
             } else {
                 head << " bad-op";
             }
+            };
+            if (co) in_coroutine(do_op);
+            else do_op();
             vh::emit(head.str(), evs);
         }
     }
@@ -896,6 +976,12 @@ int main(int argc, char **argv) {
             c->run(std::cin);
         } else if (mode == "rv") {
             auto c = std::make_unique<Case<gen_rv>>();
+            c->run(std::cin);
+        } else if (mode == "sv") {
+            auto c = std::make_unique<Case<gen_sv>>();
+            c->run(std::cin);
+        } else if (mode == "sa") {
+            auto c = std::make_unique<Case<gen_sa>>();
             c->run(std::cin);
         } else {
             auto c = std::make_unique<Case<gen_v>>();
